@@ -374,7 +374,9 @@ def mul(a: Sym, b: Sym) -> Sym:
 def div(a: Sym, b: Sym) -> Sym:
     if b.op == "const":
         if b.args[0] == 0:
-            raise SymDomainError("division by the constant zero")
+            # numpy yields inf/nan (with a warning) and carries on; the code may discard the value (ViscousDrag with
+            # k_lam = 0).  A poison node stands for it: using it in any obligation or evaluation is a domain error.
+            return poison("division by the constant zero")
         return mul(a, const(1 / b.args[0]))
     if a.op == "const" and a.args[0] == 0:
         return ZERO
@@ -389,6 +391,14 @@ def div(a: Sym, b: Sym) -> Sym:
         sign = not sign
     r = _mk("div", (a, b), (a.fp * _inv(b.fp)) % P)
     return neg(r) if sign else r
+
+
+_POISON = [0]
+
+
+def poison(why: str) -> Sym:
+    _POISON[0] += 1
+    return _mk("poison", (why, _POISON[0]), _h("poison", _POISON[0]))
 
 
 def powi(a: Sym, n: int) -> Sym:
@@ -842,6 +852,8 @@ def evalf(roots, env: dict, cplx=False):
             v = val[n.args[1].nid] if c else val[n.args[2].nid]
         elif op == "ufn":
             v = UFN_EVAL[n.args[0]](n.args[1], [val[a.nid] for a in n.args[2:]])
+        elif op == "poison":
+            v = math.nan
         else:
             raise ValueError(op)
         val[n.nid] = v
